@@ -15,7 +15,7 @@ RULE = ("one position (generator of C03) encoded as a single airborne (TC 9-18, 
         "from the same box; oracle: position_with_ref / airborne_position_with_ref / surface_position_with_ref within one "
         "quantisation step of the encoded position (lon mod 360), and equal (1e-9) for both references. non-trivial = |f| or |g| >= 0.49, "
         "reference across the equator / lon 0 / antimeridian from the target, or NL-i <= 1"
-        ' Also: offsets of +-(0.5 - 5e-10) zone, whole-degree references passed as Python ints, numpy float64 and float32 references, hex letter case, and the identical string decoded first against a reference three zones away (history on the same string).')
+        ' Also: offsets of +-(0.5 - 5e-10) zone, whole-degree references passed as Python ints, numpy float64 / float32 / int8 / int16 references, hex letter case, and the identical string decoded first against a reference three zones away (history on the same string).')
 ASSUMPTIONS = ["reference strictly inside the half-zone box (|f|,|g| <= 0.5 - 5e-10)", "reference encoder ref/cpr.py follows DO-260B A.1.7.3",
                "cases whose encoded latitude lies within 1e-9 deg of an NL transition are counted, not judged"]
 
@@ -85,6 +85,7 @@ def chk_ref(case, note):
     import numpy as np
     r4 = (np.float64(r2[0]), np.float64(r2[1]))  # a reference read from a numpy array
     refs = [r1, r2, r3, r4]
+    refs.append((np.int16(r3[0]), np.int16(r3[1])) if abs(r3[1]) > 127 or b & 16 else (np.int8(r3[0]), np.int8(r3[1])))   # whole degrees held in small numpy integers
     if max(abs(case["f2"]), abs(case["g2"])) <= 0.499:
         # a single-precision reference (receiver position kept in a float32 array): its rounding error (< 1e-5 deg) keeps it inside the box
         refs.append((np.float32(r2[0]), np.float32(r2[1])))
